@@ -12,6 +12,13 @@ Verdicts (judge): custom content accepted under strict => violation;
 allow-mode object whose flag differs from "strict reparse refused" => violation.
 """
 import json
+import os as _os
+import sys as _sys
+
+# another hash seed than the parent's (set / dict iteration orders must not matter): re-exec once, stdin is inherited
+if __name__ == "__main__" and _os.environ.get("PYTHONHASHSEED") != "4242":
+    _os.environ["PYTHONHASHSEED"] = "4242"
+    _os.execv(_sys.executable, [_sys.executable, "-B"] + _sys.argv)
 import sys
 import warnings
 
@@ -248,8 +255,12 @@ if __name__ == "__main__":
         if not line:
             continue
         case = json.loads(line)
-        o = observe(case)
-        o["fails"] = judge(case, o)
+        try:
+            o = observe(case)
+            o["fails"] = judge(case, o)
+        except Exception as _oe:  # noqa: BLE001  (the oracle itself must not stop the check)
+            o = {"strict_ok": False, "allow_ok": False, "fails": [{"kind": "oracle-could-not-evaluate-the-case",
+                 "detail": {"error": type(_oe).__name__ + ": " + str(_oe)[:300]}}]}
         if not o["fails"]:
             o.pop("text", None)
         print(json.dumps(o))
